@@ -228,6 +228,18 @@ func genWrites(t *rapid.T, l Layout, now int64, k valueKind, nanPct int) []SlotW
 	return ws
 }
 
+// genSpec draws a file: generated writes, and for archives of hundreds / thousands of slots additionally a
+// filled run of the newest slots (values FillBase + index, exactly summable), so that commands move more
+// points than any internal block, chunk or batch size.
+func genSpec(t *rapid.T, l Layout, now int64, k valueKind, nanPct int) FileSpec {
+	spec := FileSpec{L: l, Writes: genWrites(t, l, now, k, nanPct)}
+	if n := l.Archives[0].Points; n > 300 && rapid.IntRange(0, 3).Draw(t, "bulk") > 0 {
+		spec.Fill = rapid.Int64Range(n/2, n).Draw(t, "bulkFill")
+		spec.FillBase = F64(float64(rapid.IntRange(-4000, 4000).Draw(t, "bulkBase")) / 8)
+	}
+	return spec
+}
+
 // genCLIWindow draws (from, until) for a command; 0 means "default".
 func genCLIWindow(t *rapid.T, l Layout, now int64) (from, until int64) {
 	a := l.Archives[rapid.IntRange(0, len(l.Archives)-1).Draw(t, "winArch")]
